@@ -522,6 +522,19 @@ def mentions_caller_string(val, fn):
                 return False     # results of calls are not the caller's strings
             if k[0] == "elem":
                 return walk(k[1], under_call)
+            if k[0] == "listcomp":
+                # [f(x) for x in it]: the caller's strings survive only if f hands the element through uncalled
+                def bare_bound(e, under=False):
+                    if isinstance(e, Sym):
+                        if e.key == ("bound",):
+                            return not under
+                        return any(bare_bound(x, under or e.key[0] in ("call", "mcall", "graph", "dispatch")) for x in e.key[1:] if isinstance(x, (Sym, ListV, tuple)))
+                    if isinstance(e, ListV):
+                        return any(bare_bound(x, under) for x in e.items)
+                    if isinstance(e, tuple):
+                        return any(bare_bound(x, under) for x in e)
+                    return False
+                return walk(k[1], under_call) or (bare_bound(k[1]) and walk(k[2], under_call))
             return any(walk(x, under_call) for x in k[1:] if isinstance(x, (Sym, ListV, tuple)))
         if isinstance(v, ListV):
             return any(walk(x, under_call) for x in v.items)
@@ -552,6 +565,21 @@ def link_direction_rule(model, rep, r, rule):
         lst = None
         if isinstance(a[0], Sym) and a[0].key[0] == "sub" and a[0].key[2] == sysrules.lift0():
             lst = a[0].key[1]
+        if lst is None:
+            # the first element of the list that is stored as the node's input order, however it was spelled
+            from .summ import Summarizer as _S
+            from .terms import lift as _lift
+            reg = sysrules.order_registry(model)
+            for e in lf.events:
+                if e[0] == "store":
+                    c = classify_store(e[1])
+                    if c and c[0] == "REG" and c[1] == reg:
+                        try:
+                            first = _S(EditHooks(model, r, ()), Ctx()).subscript(e[2], _lift(0))
+                        except Exception:
+                            continue
+                        if vkey(first) == vkey(a[0]):
+                            lst = e[2]
         if lst is None or a[1] != Sym(("name", "comp")):
             ok = False
             rep.violation(rule, "system.System.add_comp", "%s:%d" % (rel, ch[0][4]), "the new node is created as add_child(%s, %s), expected (first declared parent, the component)" % (show_value(a[0]), show_value(a[1])), "add_child operands")
@@ -568,6 +596,12 @@ def link_direction_rule(model, rep, r, rule):
                 src = p.key[1] if isinstance(p, Sym) and p.key[0] == "elem" else None
                 if vkey(c) == vkey(newnode) and isinstance(src, Sym) and src.key[0] == "sub" and vkey(src.key[1]) == vkey(lst):
                     sl = show_value(src.key[2]).replace(" ", "")
+                    good = sl in ("slice((1,None,None))", "slice((1,None,1))")
+                # [f(x) for x in IT][1:] with the stored list [f(x) for x in IT]
+                if vkey(c) == vkey(newnode) and isinstance(src, Sym) and src.key[0] == "listcomp" and isinstance(lst, Sym) and lst.key[0] == "listcomp" \
+                        and len(src.key) == 3 and len(lst.key) == 3 and vkey(src.key[1]) == vkey(lst.key[1]) and isinstance(src.key[2], Sym) and src.key[2].key[0] == "sub" \
+                        and vkey(src.key[2].key[1]) == vkey(lst.key[2]):
+                    sl = show_value(src.key[2].key[2]).replace(" ", "")
                     good = sl in ("slice((1,None,None))", "slice((1,None,1))")
             if not good:
                 ok = False
